@@ -283,7 +283,8 @@ def build_cpp(sources, exe_name, flags=(), include_repo=True, extra_key="", comp
     the sources, harness headers and flags, so every check rebuilds from the current tree."""
     cxx = compiler or CXX
     hdrs = os.path.join(VERIF, "harness")
-    key = sha(cxx, " ".join(flags), tree_hash(os.path.join(REPO, "include")), tree_hash(hdrs), extra_key,
+    hdr_files = sorted(os.path.join(hdrs, f) for f in os.listdir(hdrs) if f.endswith((".hpp", ".h")))
+    key = sha(cxx, " ".join(flags), tree_hash(os.path.join(REPO, "include")), file_hash(*hdr_files), extra_key,
               *[file_hash(s) for s in sources])
     d = os.path.join(BUILD, "cpp", exe_name + "-" + key)
     exe = os.path.join(d, exe_name)
